@@ -6,12 +6,84 @@ from pathlib import Path
 VERIF = Path(__file__).resolve().parents[1]
 
 # id -> (level, technique, level text, level note, design ref)
+WM = "deterministic whole-model simulation"
 CHECKS = {
-    "C07": ("exploration",
-            "deterministic whole-model simulation: bounded-exhaustive (Nsteps, period, numrec, layout, direction) grid, split-vs-unsplit paired runs",
-            "Every case runs the real LADiM end to end on a seeded synthetic world and compares the files it leaves behind with the expected record times, file names and records per file, and with the unsplit run. The thorough tier enumerates the 4704-case grid completely and samples larger values; roll-over arithmetic is a finite-residue problem, so bounded-exhaustive execution is the right level.",
-            "Trusts netCDF4/HDF5 and the file-name convention of doc/source/output.rst; worlds are synthetic (tiny ROMS files); sampling beyond the enumerated grid.",
+    "C01": ("exploration", WM + ": one-step refinement against named RK tableaux via the forcing's own velocity() under recording shims; convergence order on analytic plug-in worlds (dt, dt/2, dt/4 vs exact flow map); helper functions under a user time loop",
+            "Each seeded case runs the real tracker inside the stepping model and compares every step with the displacement the selected scheme prescribes, computed from the velocities the real forcing supplies at the stage positions and fractional times and the ground-truth spacing; order of accuracy is measured against exact flow maps. Sampling of fields, metrics, time steps and positions; no fault or schedule dimension exists for this property, the simulator contributes the stepping system, the clock-dependent stage times and the reference model.",
+            "Trusts the exact flow maps of the analytic rotation/shear fields and numpy; order measured on three step sizes (shows 'not lower than'); steps ending on land/outside or with clipped stage positions are judged by C09/C17 instead.",
+            "DESIGN.md section 6, C01"),
+    "C02": ("exploration", WM + ": reference interpolation from ground-truth nodes at every forcing update; paired runs through two legal subgrids; storage layout (subgrid, packing, stagger, masks, stretching) as the searched dimension",
+            "The real Grid/Forcing read seeded synthetic ROMS files (sub-rectangles incl. negative indices, packed or float, 1..8 levels, masks) and the public velocity()/variables are compared particle by particle with an independent interpolation of the generator's node values, with the corner range, and with the same world loaded through another subgrid (bit-equal). Sampling over layouts and positions.",
+            "Trusts the independent implementation of the ROMS s-coordinate formulas in ladsim/truth.py and netCDF4; ties at cell edges and s-levels are not judged.",
+            "DESIGN.md section 6, C02"),
+    "C03": ("exploration", WM + ": frame/file layout histories (spacing incl. dt, irregular, one frame per file, start between frames, reversed) with a linear-in-time reference checked at every step and fraction",
+            "The incremental forcing update, its hand-over at frame steps and the file switching are stateful over the model clock; every case steps the real model over a seeded layout and checks the public velocity at fractions 0, .25, .5, 1 and the scalar fields at every step against the ground truth. Sampling over layouts with probes that the rare situations (spacing = dt, reversed file switch, start straddling files) were hit.",
+            "Frames lie on the model time grid (premise); tolerance 1e-4 of the largest speed (float32 accumulation) against frame amplitudes at least 8 % apart.",
+            "DESIGN.md section 6, C03"),
+    "C04": ("exploration", WM + ": state before/after every release.update compared with a reference release schedule (window, multiplicity, order, columns, continuous ticks, lon/lat)",
+            "Release accounting is a property of the history of steps; each case runs the real releaser inside the model on a seeded table and window and compares, at the release seam, exactly which particles entered at which step with which values. Sampling over tables, windows, modes and directions.",
+            "Release times on the model time grid and sorted in simulation order (premise); lon/lat positions judged by the documented solver tolerance.",
+            "DESIGN.md section 6, C04"),
+    "C05": ("exploration", "model-based stateful testing: every operation program up to length 5 (quick) / 6 (thorough) over a 9-letter alphabet exhaustively plus seeded random programs against a dict reference, and identity invariants over every snapshot and record of whole-model runs",
+            "Identifier reuse and misalignment need particular interleavings of append / kill / compactify / assignment; the short programs are enumerated exhaustively against a reference that cannot have cross-talk by construction, longer ones are sampled, and the same invariants are monitored in real simulations.",
+            "The dict reference model in ladsim/oracles/c05.py; particle variables are addressed by pid and never compactified (documented).",
+            "DESIGN.md section 6, C05"),
+    "C06": ("exploration", WM + ": state at the moment Output.write is entered (recording shim) versus the files read back as the format documentation prescribes, over seeded release/death histories, both layouts, split files",
+            "What was made durable is compared with what the state was: every record, count, time coordinate, particle variable and fill value of every file of a seeded run with deaths, empty records and dead trailing pids. Sampling over histories and variable sets.",
+            "Trusts netCDF4/HDF5 for reading back; lon/lat values are judged by C16; f4 compared after float32 rounding.",
+            "DESIGN.md section 6, C06"),
+    "C07": ("exploration", WM + ": bounded-exhaustive (Nsteps, period, numrec, layout, direction, particle variables) grid in the thorough tier, seeded sample in quick; split-vs-unsplit paired runs",
+            "Every case runs the real LADiM end to end and compares the files it leaves behind with the expected record times, file names and records per file, and with the unsplit run. Roll-over arithmetic is a finite-residue problem, so the thorough tier enumerates the 4704-case grid completely and samples larger values.",
+            "File-name convention of doc/source/output.rst; synthetic worlds; sampling beyond the enumerated grid.",
             "DESIGN.md section 6, C07"),
+    "C08": ("fault_enumeration", "crash/restart fault injection in deterministic whole-model simulation: the model is killed at a seeded step after EVERY completed output file of an uninterrupted run, only completed files survive, warm start, chains of up to three generations; restarted records compared with the uninterrupted run",
+            "The fault (process death, durable state = completed files) is enumerated over every restart point of each seeded run and sampled over crash steps, stop choices and chains; equality with the uninterrupted run is checked record by record.",
+            "Process death is emulated in-process (updates stop, handles dropped, completed files copied); diffusion off; a file is complete when its numrec-th record was written; one listed known finding (pid counter lost).",
+            "DESIGN.md section 6, C08"),
+    "C09": ("exploration", WM + ": safety invariants after every tracker and IBM call on the scenario's own mask, decisions (kill / land cancel / move) against a reference move, record histories; seeded RNG seam for diffusion",
+            "After every event of every run each living particle must be finite, inside and in water, and each decision of the tracker is compared with the reference move (unanimous over the named tableaux); coastlines, strong flows, schemes and diffusion are sampled with probes for land cancels, kills, inactivity and clipped stages.",
+            "Targets within 1e-6 of a border or cell edge are not judged; death of an inactive particle at the border is left open as in the statement.",
+            "DESIGN.md section 6, C09"),
+    "C10": ("exploration", WM + ": paired executions under two clocks (time-reversed run versus forward run in the mirrored, sign-flipped world), clock/time-coordinate/release-time readings of the reversed run",
+            "A relation between two executions of the real model: record for record the same pids and positions, plus the reversed clock at every step. Sampling over layouts, release tables and schemes.",
+            "Scalar forcing left out of the pair comparison (values identify frames); tolerance 1e-6 cells.",
+            "DESIGN.md section 6, C10"),
+    "C11": ("exploration", WM + " with a seeded randomness seam: injected numpy Generator, clouds of 2e4..1e6 particles in an analytic still-water plug-in world, moment / covariance / independence statistics at 6.5 standard errors, bit-identity across seeds at zero coefficients",
+            "The randomness source is owned by the simulator (one integer decides every draw), the statement is distributional; each seeded parameter setting is judged per step and cumulatively with wide deterministic bands. Sampling over D, Dz, dt, dx, dy over several decades.",
+            "Bands of 6.5 standard errors; normality not tested; analytic plug-in grid/forcing are stubs.",
+            "DESIGN.md section 6, C11"),
+    "C13": ("exploration", "deterministic simulation of the model clock: the real TimeKeeper stepped through update() against an integer-second reference clock; whole runs under every period spelling; malformed spellings injected into the configuration (start-up fault)",
+            "The clock every module reads is stepped for every step of seeded histories in both directions and all conversions are compared with integer arithmetic; spelling equivalence is decided by identical runs, rejection by start-up refusal.",
+            "One-second lattice; the malformed catalogue listed in ladsim/oracles/c13.py.",
+            "DESIGN.md section 6, C13"),
+    "C14": ("exploration", WM + ": families of related executions (row subset, row permutation, other particles' deaths, whole-step time shift, repetition) compared bit for bit by release-row identity",
+            "Cross-talk arises only for particular histories (a death followed by an output step, misaligned per-particle caches); each family runs the real model five to six times and compares trajectories matched by (row tag, release step, ordinal). Sampling with probes for the critical histories; doubles as determinism evidence.",
+            "f8 output; shifted relative compared with rtol 1e-12; fresh-interpreter repetition is in the determinism self-test.",
+            "DESIGN.md section 6, C14"),
+    "C15": ("exploration", WM + ": per-step invariant 0 <= Z <= h(start cell) under injected randomness and vertical advection, bit-identity of Z with both processes off",
+            "Every particle after every step of seeded runs over variable bathymetry with vertical diffusion (seeded RNG) and/or vertical advection; premise violations are counted, not judged.",
+            "Premise: start depth inside the column of the occupied cell and displacement below the local depth (10 sigma + |w| dt < h).",
+            "DESIGN.md section 6, C15"),
+    "C16": ("exploration", WM + " for the release -> state -> output pipeline on conformal grids (lon/lat release, lon/lat output, round trip on the live grid object); the sample2D utility clauses by direct seeded calls (no simulation, stated as such)",
+            "Run cases check released positions, output lon/lat and the round trip against the generator's analytic coordinates; the clauses about the 2-D sampling utility cannot be reached by any run and are exercised by direct calls, which is input generation rather than simulation.",
+            "Solver tolerance 1e-7 deg^2; 'ignores masked nodes' interpreted as within the range of the unmasked corners.",
+            "DESIGN.md sections 6 and 7, C16"),
+    "C17": ("exploration", "sanitizer-style monitor over the simulated scenario space: all profiles executed with NUMBA_BOUNDSCHECK=1 plus a position monitor on every forcing.velocity call of the tracker",
+            "Out-of-range accesses of the compiled kernels are silent in normal runs; the whole scenario space of the other properties (biased to fast flow at the open boundary with RK schemes, subgrids, surface/bottom particles, one level) is executed with bounds checking forced on, and positions passed to the kernels are checked against the rectangle covered by the loaded fields.",
+            "NUMBA_BOUNDSCHECK honoured (verified at start); negative indices are covered by the position monitor only.",
+            "DESIGN.md section 6, C17"),
+    "C18": ("exploration", "differential whole-model execution from three configuration spellings (YAML v2, TOML v2, legacy v1) and defaulted/omitted-section variants",
+            "The same seeded simulation is written in every spelling and variant and the real model is run on each; outputs must be identical. No fault or history dimension; the simulator contributes the worlds and the seeded RNG seam for diffusion.",
+            "Restricted to the version-1 vocabulary; forcing.module always given.",
+            "DESIGN.md section 6, C18"),
+    "C19": ("exploration", WM + " with recording shims on all eight modules: call-order / exactly-once / visibility rules over the recorded history, cold and warm start, plug-in precedence with an importable decoy, sampled runs through ladim.main.main()",
+            "Ordering and exactly-once over the recorded call log and state snapshots of every step of seeded runs; plug-ins given by absolute path, relative path with and without .py, and module name.",
+            "The shims override only existing methods and delegate unchanged.",
+            "DESIGN.md section 6, C19"),
+    "C20": ("fault_enumeration", "start-up fault injection: a catalogue of 19 fault kinds (with applicability predicate and effect proof) applied to valid seeded base scenarios, singly and in combinations of 2-3; thorough: every kind on every base",
+            "Each fault makes the set-up impossible by construction; the real configure()/Model() must refuse and no record may exist afterwards; unfaulted controls must start.",
+            "Any exception type counts as refusal; the catalogue is finite and listed in ladsim/oracles/c20.py.",
+            "DESIGN.md section 6, C20"),
 }
 
 NOT_APPLICABLE = {
